@@ -88,7 +88,7 @@ def run_item(seed, part, j):
     rng = np.random.default_rng([seed, 153, part, j])
     wc.NW_CAP[0] = 8
     case = wc.gen_joint(rng, "joint") if j % 3 == 2 else wc.gen_single(rng, "small")
-    case["data"]["flavor"] = ["plain", "float32", "fortran"][j % 3]
+    case["data"]["flavor"] = ["plain", "float32", "fortran", "readonly", "strided", "int"][(j + 3 * part) % 6]
     case["data"]["n_reg"] = case["K"]
     case["data"]["seg"] = 8
     case["biased"] = True
